@@ -395,9 +395,10 @@ def cookie_oracle(case, ops, ans, cookies):
                 good = False
                 for line in re.split(rb"\r\n", sent):
                     mm = re.match(rb"^DATA[ \t]+([0-9a-fA-F]*)[ \t]*$", line)
-                    if not mm or len(mm.group(1)) % 2:
+                    if not mm:
                         continue
-                    payload = bytes.fromhex(mm.group(1).decode())
+                    digits = mm.group(1)
+                    payload = bytes.fromhex((digits + (b"0" if len(digits) % 2 else b"")).decode())      # (a dangling digit is the high half of a last byte)
                     parts = payload.split(None, 1)
                     if len(parts) == 2 and cookie is not None and \
                             parts[1].strip(b" \t") == hashlib.sha1(sch + b":" + parts[0] + b":" + cookie).hexdigest().encode():
